@@ -3,6 +3,7 @@ import BppProofs.Lemmas.HmmCache
 import BppProofs.Lemmas.HmmAuto
 import BppProofs.Lemmas.HmmLogPost
 import BppProofs.Lemmas.HmmMarginal
+import BppProofs.Lemmas.HmmBreaks
 /-!
 # C13 — HMM likelihood algorithms   (src/Bpp/Numeric/Hmm)
 
@@ -163,11 +164,60 @@ theorem logsum_posterior_prob (p : Params ℝ) (hn : 0 < p.n) (hp : PosP p) (e0 
       ∧ ∀ row ∈ m, (∀ x ∈ row, 0 ≤ x) ∧ row.sum = 1 ∧ row.length = p.n :=
   logPosterior_prob p hn hp e0 he0 es hes bps hv dE d2E
 
-/-- outside that domain the code does not validate its argument: for the break-point vector `[0]`
-on three positions the forward pass resets at position 1 while the backward pass never resets
-(recorded finding C13-invalid-breaks) -/
+/-! ## Break points: `setBreakPoints` validates its argument (as repaired, abe9279) -/
+
+/-- the vectors accepted by `setBreakPoints` (`Hmm.breaksOk`, the transcription of `checkBreakPoints_`) are
+exactly the strictly increasing vectors of positions `1 … T-1` -/
+theorem accepted_breaks_valid (T : Nat) (bps : List Nat) : breaksOk T bps = true ↔ ValidBreaks T bps :=
+  breaksOk_iff T bps
+
+/-- every other vector is refused by the three classes: the call raises and the object is unchanged -/
+theorem invalid_breaks_refused {α : Type} [Scalar α] [HasIsInf α] (bps : List Nat) :
+    (∀ o : RescObj α, breaksOk o.tab.T bps = false → o.step (.setBreaks bps) = (o, .exc))
+    ∧ (∀ o : LogObj α, breaksOk o.tab.T bps = false → o.step (.setBreaks bps) = (o, .exc))
+    ∧ (∀ o : LowObj α, breaksOk o.tab.T bps = false → o.step (.setBreaks bps) = (o, .exc)) :=
+  ⟨fun o h => RescObj.setBreaks_refused o bps h, fun o h => LogObj.setBreaks_refused o bps h,
+   fun o h => LowObj.setBreaks_refused o bps h⟩
+
+/-- the break points of an object are valid in every history that did not raise (parameter updates keep the
+number of positions, which the C++ fixes at construction): rescaled and log-sum classes -/
+theorem reachable_breaks_valid {α : Type} [Scalar α] [HasIsInf α] (t : Tables α) (ops : List (Op α))
+    (hvar : ∀ op ∈ ops, op ≠ Op.d1 "" ∧ op ≠ Op.d2 "") (hnm : derivNamesOk "" "" ops = true)
+    (hlen : SameLength t.T ops) :
+    (∀ o : RescObj α, RescObj.build t = some o → (∀ a ∈ o.run ops, a ≠ Ans.exc) → breaksOk t.T (bpsAfter [] ops) = true)
+    ∧ ((∀ a ∈ (LogObj.build t).run ops, a ≠ Ans.exc) → breaksOk t.T (bpsAfter [] ops) = true) := by
+  constructor
+  · intro o hb hne
+    obtain ⟨hc, ht, hbp, hd, hd2⟩ := RescObj.build_consistent t o hb
+    have := RescObj.reachable_breaks o hc t.T (by rw [ht]) (by rw [hbp]; rfl) ops hne hvar (by rw [hd, hd2]; exact hnm) hlen
+    rwa [hbp] at this
+  · intro hne
+    obtain ⟨hc, ht, hbp, hd, hd2⟩ := LogObj.build_consistent t
+    have := LogObj.reachable_breaks _ hc t.T (by rw [ht]) (by rw [hbp]; rfl) ops hne hvar (by rw [hd, hd2]; exact hnm) hlen
+    rwa [hbp] at this
+
+/-- hence the posterior theorems hold for **every** vector of break points an object can hold: rescaled class … -/
+theorem posterior_prob_accepted (p : Params ℝ) (hp : NonNegP p) (e0 : Emis ℝ) (he0 : NonNegE e0)
+    (es : List (Emis ℝ)) (hes : ∀ e ∈ es, NonNegE e) (bps : List Nat) (hacc : breaksOk (es.length + 1) bps = true)
+    (hpos : ∀ c ∈ (rescForward p e0 (mkSites es bps)).scales, 0 < c) :
+    (rescPosterior p e0 es bps).length = es.length + 1
+    ∧ ∀ row ∈ rescPosterior p e0 es bps, (∀ x ∈ row, 0 ≤ x) ∧ row.sum = 1 ∧ row.length = p.n :=
+  posterior_prob p hp e0 he0 es hes bps ((breaksOk_iff _ _).mp hacc) hpos
+
+/-- … and log-sum class -/
+theorem logsum_posterior_prob_accepted (p : Params ℝ) (hn : 0 < p.n) (hp : PosP p) (e0 : Emis ℝ) (he0 : PosE e0)
+    (es : List (Emis ℝ)) (hes : ∀ e ∈ es, PosE e) (bps : List Nat) (hacc : breaksOk (es.length + 1) bps = true)
+    (dE d2E : String → Emis ℝ × List (Emis ℝ)) :
+    ∃ m, logPosterior { p := p, e0 := e0, es := es, dE := dE, d2E := d2E } bps = some m
+      ∧ m.length = es.length + 1
+      ∧ ∀ row ∈ m, (∀ x ∈ row, 0 ≤ x) ∧ row.sum = 1 ∧ row.length = p.n :=
+  logsum_posterior_prob p hn hp e0 he0 es hes bps ((breaksOk_iff _ _).mp hacc) dE d2E
+
+/-- before the repair any vector was accepted: for `[0]` on three positions the forward pass resets at
+position 1 while the backward pass never resets (witness of the former finding C13-invalid-breaks); the
+vector is now refused -/
 theorem invalid_breaks_flags_witness :
-    fwdFlags 3 2 1 [0] = [true, false] ∧ (bwdFlags 2 [0].reverse).reverse = [false, false] := by decide
+    fwdFlags 3 2 1 [0] = [true, false] ∧ (bwdFlags 2 [0].reverse).reverse = [false, false] ∧ breaksOk 3 [0] = false := by decide
 
 /-! ## History independence of the cached objects
 
@@ -234,14 +284,15 @@ theorem history_dependent_after_exception :
 row 0 of `P^256` computed by C04's `pow` — exactly stationary only in the limit); it is judged on the
 implementation's answers only. -/
 
-/-- with at least two states and every `λ_i ∈ [0,1]` each row of the matrix is a probability vector -/
-theorem autocorr_row_stochastic (n : Nat) (hn : 2 ≤ n) (li : ℝ) (h0 : 0 ≤ li) (h1 : li ≤ 1) (i : Nat) (hi : i < n) :
+/-- for every number of states ≥ 1 and every `λ_i ∈ [0,1]` each row of the matrix is a probability vector
+(a single state: the matrix is `[1]`, as repaired) -/
+theorem autocorr_row_stochastic (n : Nat) (hn : 1 ≤ n) (li : ℝ) (h0 : 0 ≤ li) (h1 : li ≤ 1) (i : Nat) (hi : i < n) :
     ∑ j ∈ Finset.range n, autoEntry n li i j = 1 ∧ ∀ j, 0 ≤ autoEntry n li i j :=
   ⟨autoEntry_row_sum n hn li i hi, autoEntry_nonneg n hn li h0 h1 i⟩
 
 /-- the equilibrium vector computed by `fireParameterChanged` is a genuine stationary distribution
 of that matrix: `π·P = π`, `Σ π = 1`, `π > 0` (every `λ_i < 1`, which the parameter constraint ]0,1[ enforces) -/
-theorem autocorr_stationary (n : Nat) (hn : 2 ≤ n) (lam : Nat → ℝ) (hl : ∀ i, i < n → lam i < 1) :
+theorem autocorr_stationary (n : Nat) (hn : 1 ≤ n) (lam : Nat → ℝ) (hl : ∀ i, i < n → lam i < 1) :
     autoEq (vec n lam) = vec n (autoPi n lam)
     ∧ (∀ j, j < n → ∑ k ∈ Finset.range n, autoPi n lam k * autoEntry n (lam k) k j = autoPi n lam j)
     ∧ ∑ i ∈ Finset.range n, autoPi n lam i = 1 ∧ ∀ i, i < n → 0 < autoPi n lam i :=
@@ -254,9 +305,11 @@ theorem autocorr_history_independent {α : Type} [Scalar α] (n : Nat) (ops : Li
       = autoSpecRun n (List.replicate n (Scalar.ofRat 95 100)) (List.replicate n (Scalar.one / Scalar.ofInt n)) ops :=
   AutoTM.runA_spec _ (by simp [AutoTM.build]) ops
 
-/-- with a single state the "matrix" is `[λ]`, not `[1]` (degenerate case, outside the theorem above) -/
-theorem autocorr_one_state_witness : autoEntry 1 (19 / 20 : ℝ) 0 0 ≠ 1 := by
-  simp [autoEntry]; norm_num
+/-- before the repair (3a53bfc) the single-state "matrix" was `[λ]`: the diagonal formula without the
+one-state case (kept as the witness of the former finding C13-autocorr-one-state) -/
+theorem autocorr_one_state_witness :
+    (if (0 : Nat) == 0 then (19 / 20 : ℝ) else (1 - 19 / 20) / ((1 : ℝ) - 1)) ≠ 1 ∧ autoEntry 1 (19 / 20 : ℝ) 0 0 = 1 := by
+  refine ⟨by norm_num, autoEntry_one _ _ _⟩
 
 /-! ## Non-vacuity -/
 
